@@ -215,13 +215,21 @@ def showWorld (st : DState) (outs : List Out) : String :=
 
 def handle (st : DState) (line : String) : DState × String :=
   match words line with
-  | ["scenario"] => (DState.init, "ok")
+  | ["scenario"] =>
+    -- a new scenario keeps the durations read from the real code
+    (⟨{ KWorld.init with w := { World.init with cfg := st.kw.w.cfg } }, [], []⟩, "ok")
   | ["typidx", t] =>
     match parseTyp? t with
     | some t => (st, s!"idx={t.idx} udp={boolStr t.isUdp} data={boolStr t.isData}")
     | none => (st, "bad-op")
+  | ["params", q, t, c] =>
+    -- durations read from the real code (not compared: the property does not fix them)
+    match q.toNat?, t.toNat?, c.toNat? with
+    | some q, some t, some c =>
+      (⟨{ st.kw with w := { st.kw.w with cfg := ⟨q, t, c⟩ } }, st.nodeIds, st.wired⟩, "ok")
+    | _, _, _ => (st, "bad-op")
   | ["consts"] =>
-    (st, s!"max={maxConsecutiveFailures} quiesce={quiesce} ttl={failureTTL} cleanup={cleanupInterval} hour={hour}")
+    (st, s!"max={maxConsecutiveFailures}")
   | ["key", ob, t, a] =>
     match ob.toNat?, parseTyp? t with
     | some ob, some t =>
